@@ -181,6 +181,12 @@ def _strategy(draw):
         # restarts happen also in these dilute systems
         spec["fail_pattern"] = [draw(st.integers(0, 2)) == 0 for _ in range(draw(st.integers(1, 20)))]
         opts["nrewind"] = draw(st.integers(2, 3)) if mixed else draw(st.integers(1, 4))
+    if draw(st.integers(0, 3)) == 0:
+        # [ molecules ] lines with the count 0 (a component switched off for this run), anywhere in the list
+        for _ in range(draw(st.integers(1, 2))):
+            name = draw(st.sampled_from([mt["name"] for mt in spec["moltypes"]]))
+            spec["molecules"].insert(draw(st.integers(0, len(spec["molecules"]))), [name, 0])
+        spec["zero_counts"] = True
     return spec
 
 
@@ -255,6 +261,8 @@ def check(spec, ctx):
     if len(got_box) > 3 and any(abs(v) > 1e-9 for v in got_box[3:]):
         raise Violation("box:triclinic_terms", f"{got_box}")
     ctx.label("box_from_" + source)
+    if spec.get("zero_counts"):
+        ctx.label("molecules_lines_with_count_0")
     if spec.get("include_layout"):
         ctx.label("molecule_types_in_an_include" + ("_read_before_with_other_content" if spec.get("primed") else ""))
     if spec.get("coords") and spec["coords"].get("format") == "pdb":
